@@ -1,7 +1,7 @@
 (* C19 - Grapheme strings are pure values: cached boundaries never go stale. *)
 From Coq Require Import List Bool Arith ZArith Lia.
 Import ListNotations.
-From Rosed Require Import Base.Res Base.ListX Gem.Segment Gem.GString Gem.GHeap Gem.GSpec Model.Util Proofs.SegmentP Proofs.C04P Proofs.C19P Proofs.C19H.
+From Rosed Require Import Base.Res Base.ListX Gem.Segment Gem.GString Gem.GHeap Gem.GSpec Model.Util Proofs.SegmentP Proofs.C04P Proofs.C19P Proofs.C19H Proofs.SubaddP.
 
 (* boundaries partition the code points, for arbitrary rune values and any classifier:
    they concatenate to the input, no cluster is empty *)
@@ -69,3 +69,13 @@ Print Assumptions C19_operands_kept.
 
 Example C19_history_premise : Forall in_c19 [GNew [97; 769; 98]%Z; GCopy 0; GLen 0; GSub 1 0%Z 1%Z; GAdd 3 0; GZeroValue; GRepeat 4 2%Z; GSetCharAt 6 1%Z [120]%Z; GCharAt 7 0%Z].
 Proof. exact history_premise. Qed.
+
+(* Add (and any concatenation): every cluster of the first operand but its last is a cluster of
+   the result, in the same place - boundaries depend only on what precedes them and on the next
+   code point, so appending can change nothing but how the last cluster ends; the cluster count
+   of the result is at least that of the first operand and at most the sum (C06_clusters_monotone_left,
+   C06_clusters_subadditive) *)
+Theorem C19_append_keeps_clusters : forall (C : Classifier) a b, a <> [] ->
+  exists X, clusters (a ++ b) = removelast (clusters a) ++ X.
+Proof. intros C. exact clusters_app_prefix. Qed.
+Print Assumptions C19_append_keeps_clusters.
